@@ -33,7 +33,9 @@ def check_series_has_expected_type(series: pd.Series, internal_type: np.dtype) -
     elif (internal_type == bool) & (is_bool_dtype(series)):
         out = True
     elif (internal_type == numpy.datetime64) & (is_datetime64_any_dtype(series)):
-        out = True
+        # Nanosecond resolution is converted to seconds: numpy hands nanosecond values
+        # to the element-wise functions as plain integers, not as dates.
+        out = series.dtype != "datetime64[ns]"
     else:
         out = False
 
@@ -131,6 +133,13 @@ def convert_series_to_internal_type(
                     out = out.astype(np.datetime64)
                 except ValueError as e:
                     raise ValueError(basic_error_msg) from e
+            elif out.dtype == "datetime64[ns]":
+                in_seconds = out.astype("datetime64[s]")
+                if not (in_seconds.astype("datetime64[ns]") == out).all():
+                    raise ValueError(
+                        basic_error_msg + " The values carry sub-second information."
+                    )
+                out = in_seconds
         else:
             raise ValueError(f"The internal type {internal_type} is not yet supported.")
 
